@@ -164,6 +164,18 @@ def gen_config(rng, profile="any", tier="quick"):
                 firstrow = list(sorted(rows)[0])
                 firstrow[0] = md0
                 rows.append(firstrow)
+    if profile == "C07" and rng.random() < 0.3:
+        # leading empty cells: the first bar(s) of an asset carry no close (or no open) - a back-fill would reach
+        # into the future here
+        sym = rng.choice(syms)
+        rows = sorted(market["assets"][sym]["rows"], key=lambda r: r[0])
+        for r_ in rows[:rng.randrange(1, 3)]:
+            if rng.random() < 0.5:
+                r_[4] = None
+                r_[5] = None
+            else:
+                r_[1] = None
+        market["applied"].setdefault(sym, []).append("empty_cell:leading")
     if profile != "C07":
         # first observation of every asset must be a number (no leading empty cells)
         for sym in syms:
